@@ -1,7 +1,173 @@
-//! C09 end-to-end part (whole dumps into positioned destinations) — needs the puppet.
+//! C09 end-to-end part: whole dumps into destinations positioned at different offsets with
+//! pre-existing content; successful and aborted (hard error, destination fault at every call).
+
+use crate::checks::c01::{env_of, opts_for, shape_n3};
+use crate::dest::{DestOp, Fault};
+use crate::dump::{dump_recorded, DumpOpts, DumpResult};
+use crate::shapes::{build, par_map, Shape};
 use crate::Ctx;
-use mdv_core::{Report, Value};
-pub fn run(_ctx: &Ctx, _rep: &mut Report) {}
-pub fn replay(_case: &Value, rep: &mut Report) {
-    rep.machinery("end-to-end C09 replay not available yet".into());
+use mdv_core::{json, Report, Value};
+
+fn pre_bytes(kind: usize, start: u64) -> Vec<u8> {
+    match kind {
+        0 => vec![],
+        1 => (0..start).map(|i| 0xD0 | (i as u8 & 7)).collect(),
+        _ => (0..start + 400_000).map(|i| 0xD0 | (i as u8 & 7)).collect(), // longer than any image: the tail must survive
+    }
+}
+
+fn check(start: u64, pre: &[u8], r: &DumpResult, d: &crate::dest::RecDest) -> Option<(String, String)> {
+    let s = start as usize;
+    // nothing before the starting position is touched (neither stored nor even written to)
+    for op in &d.log {
+        if let DestOp::Write { at, .. } = op {
+            if *at < start {
+                return Some(("write-before-start".into(), format!("a write at offset {at} precedes the starting position {start}")));
+            }
+        }
+    }
+    for i in 0..s.min(d.data.len()) {
+        let want = pre.get(i).copied().unwrap_or(0);
+        if d.data[i] != want {
+            return Some(("before-start-modified".into(), format!("byte {i} before the starting position changed")));
+        }
+    }
+    let extent = d.log.iter().filter_map(|o| if let DestOp::Write { at, data } = o { Some(*at as usize + data.len()) } else { None }).max().unwrap_or(s);
+    match r {
+        DumpResult::Ok(img) => {
+            if d.data.len() < s + img.len() || d.data[s..s + img.len()] != img[..] {
+                let first = (0..img.len()).find(|i| d.data.get(s + i) != Some(&img[*i])).unwrap_or(0);
+                return Some(("destination-differs-from-returned-image".into(), format!("byte {first} of the returned image is not what the destination holds at start+{first}")));
+            }
+            if extent > s + img.len() {
+                return Some(("write-beyond-image-end".into(), format!("a write reached offset {extent}, the image ends at {}", s + img.len())));
+            }
+            for i in (s + img.len())..d.data.len() {
+                if Some(&d.data[i]) != pre.get(i) {
+                    return Some(("beyond-image-end-modified".into(), format!("destination byte {i} beyond the end of the image changed or appeared")));
+                }
+            }
+        }
+        _ => {
+            // aborted: bytes beyond what was written are unchanged
+            for i in extent.max(s)..d.data.len() {
+                if Some(&d.data[i]) != pre.get(i) {
+                    return Some(("aborted/beyond-written-extent-modified".into(), format!("destination byte {i} beyond the last written byte changed")));
+                }
+            }
+            if d.data.len() > pre.len().max(extent) {
+                return Some(("aborted/destination-grew".into(), "the destination grew beyond what was written".into()));
+            }
+        }
+    }
+    None
+}
+
+pub struct Res {
+    case: Value,
+    fails: Vec<(String, String)>,
+    dumps: u64,
+    aborted: u64,
+}
+
+fn run_one(shape: &Shape, t: &[usize], start: u64, pre_kind: usize, faults: bool, bad_app: bool) -> Res {
+    let mut b = build(shape);
+    let env = env_of(&mut b);
+    let mut o: DumpOpts = opts_for(t, &b, &env);
+    if bad_app {
+        o.app_memory.push((0x10, 64)); // unreadable region: hard error in the middle of the dump
+    }
+    let case = json!({"shape": shape.to_json(), "options": t, "start": start, "pre": pre_kind, "faults": faults, "bad_app": bad_app});
+    let pre = pre_bytes(pre_kind, start);
+    let mut fails = Vec::new();
+    let (r, d) = dump_recorded(b.p.pid, &o, start, pre.clone(), Fault::None);
+    let mut dumps = 1;
+    let mut aborted = !matches!(r, DumpResult::Ok(_)) as u64;
+    if let Some((k, m)) = check(start, &pre, &r, &d) {
+        fails.push((k, m));
+    }
+    if faults {
+        for k in 0..d.calls {
+            b.p.quiesce();
+            let (r2, d2) = dump_recorded(b.p.pid, &o, start, pre.clone(), Fault::ErrAt(k));
+            dumps += 1;
+            aborted += !matches!(r2, DumpResult::Ok(_)) as u64;
+            if let Some((kk, m)) = check(start, &pre, &r2, &d2) {
+                if !fails.iter().any(|f| f.0 == kk) {
+                    fails.push((kk, format!("destination error at call {k}: {m}")));
+                }
+            }
+        }
+        for sw in [1usize, 4093] {
+            b.p.quiesce();
+            let (r2, d2) = dump_recorded(b.p.pid, &o, start, pre.clone(), Fault::ShortWrites(sw));
+            dumps += 1;
+            if let Some((kk, m)) = check(start, &pre, &r2, &d2) {
+                fails.push((format!("short-writes/{kk}"), m));
+            }
+        }
+    }
+    Res { case, fails, dumps, aborted }
+}
+
+pub fn run(ctx: &Ctx, rep: &mut Report) {
+    let shape = shape_n3();
+    let mut items: Vec<(Vec<usize>, u64, usize, bool, bool)> = Vec::new();
+    let tuples: Vec<Vec<usize>> = if ctx.tier.is_thorough() {
+        let mut v = Vec::new();
+        mdv_core::lat::lat(&crate::checks::c01::DIMS, 1, |t| v.push(t.to_vec()));
+        v
+    } else {
+        vec![vec![0; 7], vec![1, 1, 1, 1, 2, 1, 1]]
+    };
+    for t in &tuples {
+        for start in [0u64, 1, 4103] {
+            for pre in 0..3usize {
+                if start == 0 && pre == 1 {
+                    continue;
+                }
+                items.push((t.clone(), start, pre, false, false));
+                items.push((t.clone(), start, pre, false, true));
+            }
+        }
+    }
+    // destination fault at every call: a few placements
+    items.push((vec![0; 7], 4103, 2, true, false));
+    items.push((vec![1, 1, 1, 1, 2, 1, 1], 1, 2, true, false));
+    if ctx.tier.is_thorough() {
+        items.push((vec![0; 7], 0, 0, true, false));
+        items.push((vec![1, 0, 1, 0, 1, 0, 1], 13, 1, true, true));
+    }
+    let results = par_map(&items, |_, (t, s, p, f, bad)| run_one(&shape, t, *s, *p, *f, *bad));
+    let (mut dumps, mut aborted) = (0, 0);
+    for r in results {
+        dumps += r.dumps;
+        aborted += r.aborted;
+        if rep.samples.len() < 4 {
+            rep.sample(r.case.clone());
+        }
+        for (k, m) in r.fails {
+            rep.violation(&format!("dump/{k}"), &m, r.case.clone());
+        }
+    }
+    rep.evaluations += dumps;
+    rep.transitions += dumps;
+    rep.traces += dumps;
+    rep.nontrivial += aborted;
+    rep.set("whole_dumps", json!({"dumps": dumps, "aborted_dumps": aborted, "placements": items.len()}));
+}
+
+pub fn replay(case: &Value, rep: &mut Report) {
+    let Some(shape) = case.get("shape").and_then(Shape::from_json) else {
+        rep.machinery("bad replay".into());
+        return;
+    };
+    let t: Vec<usize> = case.get("options").and_then(|o| o.as_array()).map(|a| a.iter().map(|x| x.as_u64().unwrap_or(0) as usize).collect()).unwrap_or_default();
+    let g = |k: &str| case.get(k).and_then(|v| v.as_u64()).unwrap_or(0);
+    let gb = |k: &str| case.get(k).and_then(|v| v.as_bool()).unwrap_or(false);
+    let r = run_one(&shape, &t, g("start"), g("pre") as usize, gb("faults"), gb("bad_app"));
+    rep.evaluations += r.dumps;
+    for (k, m) in r.fails {
+        rep.violation(&format!("dump/{k}"), &m, case.clone());
+    }
 }
